@@ -6,7 +6,7 @@
 (* comment / BOM, module docstring height, one prelude line) followed by   *)
 (* an outline of items.  An item is a statement form (FormTab: kind,       *)
 (* header height, built-in docstring, names bound, ...), a decorator list  *)
-(* (DecoTab) and a depth.  Append adds one item and *places* it: the spec  *)
+(* (DecoTab) and a depth.  Write adds one item and *places* it: the spec   *)
 (* keeps CPython's line counter (cur), the set of lines on which           *)
 (* str.splitlines breaks although CPython does not (brk), the stack of     *)
 (* open blocks, and extends the end line of every open ancestor exactly as *)
